@@ -111,6 +111,37 @@ class Gen:
         clocks = [((base + i * step) // 1000000, (base + i * step) % 1000000) for i in range(12)]
         return render(prog, xs, polls, clocks)
 
+    def many_timers_case(self):
+        """8..40 timers with distinct deadlines registered in scrambled order, some cancelled or reset
+        from the middle of the heap, then the clock jumps past every deadline and the loop is run until
+        all have fired: the order of the callbacks is the order of the deadlines only if the timer heap
+        keeps its shape under deletions from interior positions."""
+        r = self.r
+        self.ctx.count("events.profile.many-timers")
+        n = r.randrange(8, 41)
+        ms = r.sample(range(1, 4000), n)
+        if r.random() < 0.3:                      # a layout with small keys in the last leaves
+            ms = sorted(ms)
+            half = n // 2
+            ms = [ms[0]] + ms[half:] + ms[1:half]
+        xs = [["tr", 0, m // 1000, (m % 1000) * 1000, i, 0] for i, m in enumerate(ms)]
+        nreads = n
+        for _ in range(r.randrange(1, max(2, n // 3))):
+            v = r.randrange(n)
+            if r.random() < 0.75:
+                xs.append(["tx", v])
+            else:
+                xs.append(["ts", v])
+                nreads += 1
+            if r.random() < 0.3:
+                m = r.randrange(1, 4000)
+                xs.append(["tr", 0, m // 1000, (m % 1000) * 1000, v, 0])
+                nreads += 1
+        xs += [["run"]] * (n + 6)
+        polls = [["r", 0]] * (3 * (n + 6))
+        clocks = [(0, 0)] * nreads + [(10, 0)] * (8 * (n + 6))
+        return render([[([], 0)]], xs, polls, clocks)
+
     def case_struct(self):
         r = self.r
         pname = r.choices(["mixed", "net", "imm", "timer", "status", "spin"], [30, 30, 12, 15, 8, 5])[0]
@@ -305,7 +336,7 @@ def run_all(ctx, sub):
     cases = corpus_cases()
     ctx.count("events.corpus", len(cases))
     n = ctx.n(4000, 200000)
-    cases += [(g.far_case() if i % 25 == 7 else g.case()) for i in range(n)]
+    cases += [(g.far_case() if i % 25 == 7 else g.many_timers_case() if i % 25 == 13 else g.case()) for i in range(n)]
     impl, st = vlib.run_sharded(exe, cases, env=ASAN_ENV, timeout=1500)
     model, _ = vlib.run_sharded(mexe, cases, timeout=1500)
     traces = [l[3:] if l.startswith("ok ") else "" for l in impl]
